@@ -14,7 +14,10 @@ from vf import core
 from vf.oracles import polygon as P
 
 PTS = [(x, y) for x in range(4) for y in range(4)]  # index -> lattice vertex
-PROBES2 = [(x, y) for x in range(-1, 8) for y in range(-1, 8)]  # doubled coordinates of the 81 probes
+S = 20000  # integer units per lattice unit (exact arithmetic on integers)
+EPS = 8  # 0.0004 lattice units: below the 0.001 edge tolerance
+BASE = [(x * S // 2, y * S // 2) for x in range(-1, 8) for y in range(-1, 8)]  # the 81 half-integer probes
+PERT = [(0, EPS), (0, -EPS), (EPS, 0), (-EPS, 0)]
 XFS = {
     "id": (1.0, 0.0),
     "a7.3+11.1": (7.3, 11.1),
@@ -39,33 +42,59 @@ def _xf(v, k):
     return a * v + b
 
 
-def check_polygon(seq, xfs, res, single_probe=None):
-    """seq: list of lattice vertices (ints). Classify all probes under each transform; append violations."""
-    poly2 = [(2 * x, 2 * y) for x, y in seq]
+def _dist_to_boundary(contour, fx, fy):
+    best = float("inf")
+    n = len(contour)
+    for i in range(n):
+        ax, ay = contour[i - 1]
+        bx, by = contour[i]
+        dx, dy = bx - ax, by - ay
+        t = ((fx - ax) * dx + (fy - ay) * dy) / (dx * dx + dy * dy)
+        t = 0.0 if t < 0 else 1.0 if t > 1 else t
+        d = ((fx - ax - t * dx) ** 2 + (fy - ay - t * dy) ** 2) ** 0.5
+        best = min(best, d)
+    return best
+
+
+def check_polygon(seq, xfs, res, single_probe=None, perturb=True):
+    """seq: list of lattice vertices (ints). Classify all probes under each transform; append violations.
+    Probes: the 81 half-integer points and each of them moved by +-0.0004 in x or y (just off a vertex level,
+    just off an edge)."""
+    poly2 = [(S * x, S * y) for x, y in seq]
     convex = P.is_convex(poly2)
     ys = {y for _, y in poly2}
-    probes = PROBES2 if single_probe is None else [tuple(single_probe)]
+    if single_probe is not None:
+        probes = [tuple(single_probe)]
+    else:
+        probes = list(BASE)
+        if perturb:
+            probes += [(x + dx, y + dy) for x, y in BASE for dx, dy in PERT]
     exact = {}
     for px, py in probes:
         exact[(px, py)] = P.classify(poly2, px, py)
     for k in xfs:
         contour = [(_xf(float(x), k), _xf(float(y), k)) for x, y in seq]
-        a = XFS[k][0]
         for px, py in probes:
             want = exact[(px, py)]
-            fx, fy = _xf(px / 2.0, k), _xf(py / 2.0, k)
+            fx, fy = _xf(px / S, k), _xf(py / S, k)
             if want != 0:
-                # off the boundary: the documented detour metric must be clearly above the tolerance
+                # off the boundary: either clearly outside the tolerance band (exact class expected), or clearly
+                # inside it by both the detour metric and the distance (on-edge expected); anything between is excluded
                 d = P.detour(contour, fx, fy)
                 if d < 4 * TOL:
-                    res["excluded"] += 1
-                    continue
-                if d < res["stats"].get("min_offedge_detour_e6", 10**12) / 1e6:
+                    if d <= TOL / 2 and _dist_to_boundary(contour, fx, fy) <= TOL / 2:
+                        want = 0
+                        res.bump("within_tolerance_probes")
+                    else:
+                        res["excluded"] += 1
+                        continue
+                elif d < res["stats"].get("min_offedge_detour_e6", 10**12) / 1e6:
                     res["stats"]["min_offedge_detour_e6"] = int(d * 1e6)
             got = _ppc(contour, (fx, fy))
             res["evals"] += 1
-            nontriv = (not convex) or (py in ys) or any(
-                P.cross(poly2[i - 1][0], poly2[i - 1][1], poly2[i][0], poly2[i][1], px, py) == 0 for i in range(len(poly2))
+            nontriv = (not convex) or any(abs(py - vy) <= EPS for vy in ys) or any(
+                abs(P.cross(poly2[i - 1][0], poly2[i - 1][1], poly2[i][0], poly2[i][1], px, py)) <= EPS * 4 * S
+                for i in range(len(poly2))
             )
             if nontriv:
                 res["nontrivial"] += 1
@@ -75,7 +104,7 @@ def check_polygon(seq, xfs, res, single_probe=None):
                 res["violations"].append(
                     core.viol(
                         "misclassified",
-                        {"polygon": [list(v) for v in seq], "probe2": [px, py], "xf": k},
+                        {"polygon": [list(v) for v in seq], "probe_units": [px, py], "xf": k},
                         observed=got,
                         expected=want,
                         msg=f"point_polygon_check({contour}, {(fx, fy)}) = {got}, exact classification = {want}",
@@ -88,7 +117,7 @@ def check_polygon(seq, xfs, res, single_probe=None):
 def run_case(case):
     res = core.Result(evals=0)
     if "polygon" in case:  # single replay case
-        check_polygon([tuple(v) for v in case["polygon"]], [case["xf"]], res, single_probe=case["probe2"])
+        check_polygon([tuple(v) for v in case["polygon"]], [case["xf"]], res, single_probe=case["probe_units"])
         return res
     n, a, b = case["n"], case["a"], case["b"]
     canonical = case["canonical"]
@@ -99,9 +128,9 @@ def run_case(case):
         if not P.is_simple(seq):
             continue
         npoly += 1
-        check_polygon(seq, case["xfs"], res)
+        check_polygon(seq, case["xfs"], res, perturb=case.get("perturb", True))
         if res["sample"] is None and npoly == 7:
-            res["sample"] = {"polygon": seq, "probes": "81 half-integer points", "xfs": case["xfs"]}
+            res["sample"] = {"polygon": seq, "probes": "81 half-integer points" + (" and each moved by +-0.0004 in x / y" if case.get("perturb", True) else ""), "xfs": case["xfs"]}
     res.bump("simple_polygons", npoly)
     res.bump(f"simple_polygons_n{n}", npoly)
     # min is not additive: carry it separately
@@ -111,13 +140,13 @@ def run_case(case):
     return res
 
 
-def chunks(n, canonical, xfs):
+def chunks(n, canonical, xfs, perturb=True):
     out = []
     for a in range(16):
         for b in range(16):
             if b == a or (canonical and b < a):
                 continue
-            out.append({"n": n, "a": a, "b": b, "canonical": canonical, "xfs": xfs})
+            out.append({"n": n, "a": a, "b": b, "canonical": canonical, "xfs": xfs, "perturb": perturb})
     return out
 
 
@@ -125,11 +154,11 @@ def main(run: core.Run):
     xfs = list(XFS)
     cases = []
     if run.tier == "quick":
-        plan = [(3, False), (4, False), (5, True)]
+        plan = [(3, False, True), (4, False, True), (5, True, False)]
     else:
-        plan = [(3, False), (4, False), (5, False), (6, False)]
-    for n, canonical in plan:
-        cases += chunks(n, canonical, xfs)
+        plan = [(3, False, True), (4, False, True), (5, False, True), (6, False, False)]
+    for n, canonical, perturb in plan:
+        cases += chunks(n, canonical, xfs, perturb)
     results = run.drive(cases, family="lattice-polygons", chunksize=1)
     mins = [r.get("min_detour_e6") for r in results if r.get("min_detour_e6") is not None]
     min_detour = min(mins) / 1e6 if mins else None
@@ -140,11 +169,11 @@ def main(run: core.Run):
     )
     return run.finish(
         rule=rule,
-        bounds={"lattice": "4x4", "vertices": [n for n, _ in plan], "canonical_start_only": {str(n): c for n, c in plan},
-                "probes": 81, "affine_images": xfs, "on_edge_tolerance": TOL},
+        bounds={"lattice": "4x4", "vertices": [n for n, _, _ in plan], "canonical_start_only": {str(n): c for n, c, _ in plan},
+                "perturbed_probes": {str(n): p for n, _, p in plan}, "probes": "81 (+324 perturbed by 0.0004)", "affine_images": xfs, "on_edge_tolerance": TOL},
         assumptions=[
-            "on-edge band: off-boundary probes whose detour |PA|+|PB|-|AB| is below 4*tolerance are excluded and counted "
-            "(none occur on this lattice: see min_offedge_detour)",
+            "on-edge band: an off-boundary probe is expected on-edge when both its detour |PA|+|PB|-|AB| and its distance to the "
+            "boundary are <= tolerance/2, expected in its exact class when the detour is >= 4*tolerance, and excluded (counted) between",
             "exact oracle works on doubled integer coordinates; the affine images are applied to vertices and probes alike",
         ],
         extra={"min_offedge_detour": min_detour},
